@@ -26,11 +26,13 @@ NoCase == [active |-> FALSE]
 NewCase(e) ==
   [active |-> TRUE, mode |-> e.mode, differ |-> e.differ, realS |-> e.realS, realR |-> e.realR,
    before |-> e.before, metaOnly |-> e.metaOnly,
+   src |-> IF "srcExact" \in DOMAIN e /\ e.srcExact THEN e.src ELSE <<>>,
+   srcExact |-> "srcExact" \in DOMAIN e /\ e.srcExact,
    stats |-> <<>>, ended |-> FALSE, vs |-> VSInit, vsOK |-> TRUE,
    s2r |-> <<>>, r2s |-> <<>>,
    sReqLog |-> <<>>, sFinished |-> {}, sFinSeen |-> FALSE, sFinEchoed |-> FALSE,
    rStats |-> 0, rEnd |-> FALSE, rReq |-> {}, rTerm |-> {}, rFinSent |-> FALSE, rEof |-> FALSE,
-   rMustFail |-> FALSE, rEchoSeen |-> FALSE,
+   rMustFail |-> FALSE, rEchoSeen |-> FALSE, sErrSeen |-> FALSE, sEofSeen |-> FALSE,
    pS |-> [v |-> 0, final |-> FALSE], 
    retS |-> "none", retR |-> "none",
    notes |-> <<>>, faults |-> 0, tornS |-> FALSE, tornR |-> FALSE]
@@ -118,13 +120,13 @@ DlvR(c, e) ==
             [] OTHER -> <<[c1 EXCEPT !.rMustFail = @ \/ (m.type = "ERR")], {}>>
 
 DlvS(c, e) ==
-  IF e.eof THEN <<c, {}>>
+  IF e.eof THEN <<[c EXCEPT !.sEofSeen = TRUE], {}>>
   ELSE IF c.r2s = <<>> THEN <<c, {"HARNESS.deliveryFromEmptyPipe"}>>
   ELSE LET m == Head(c.r2s)
            c1 == [c EXCEPT !.r2s = Tail(@)]
        IN CASE m.type = "REQ" -> <<[c1 EXCEPT !.sReqLog = Append(@, m.id)], {}>>
             [] m.type = "FIN" -> <<[c1 EXCEPT !.sFinSeen = TRUE], {}>>
-            [] OTHER -> <<c1, {}>>
+            [] OTHER -> <<[c1 EXCEPT !.sErrSeen = @ \/ (m.type = "ERR")], {}>>
 
 \* ---- other events ------------------------------------------------------------
 Prog(c, e) ==
@@ -132,25 +134,29 @@ Prog(c, e) ==
   ELSE <<[c EXCEPT !.pS = [v |-> e.v, final |-> @.final \/ e.last]],
          IF c.realS THEN Cl(e.v < c.pS.v, "C06.progressDecreased") \cup Cl(c.pS.final, "C06.progressAfterFinalCall") ELSE {}>>
 
+\* requests delivered to the sender that must make the call fail
+BadReqs(c) == \E i \in DOMAIN c.sReqLog :
+                \/ c.sReqLog[i] >= Len(c.stats)
+                \/ c.stats[c.sReqLog[i] + 1].t # "file"
+                \/ \E j \in 1..(i - 1) : c.sReqLog[j] = c.sReqLog[i]
+
 Ret(c, e) ==
   IF e.side = "S"
   THEN <<[c EXCEPT !.retS = IF e.ok THEN "ok" ELSE "err"],
          IF c.realS THEN Cl(e.ok /\ ~c.sFinEchoed, "C04.sendSuccessWithoutFin")
+                         \cup Cl(~e.ok /\ c.faults = 0 /\ ~BadReqs(c) /\ ~c.sErrSeen /\ ~c.sEofSeen /\ ~c.tornR
+                                 /\ c.retR = "none", "C06.failedWithoutCause")
                          \cup Cl(~c.pS.final /\ c.pS.v > 0, "C06.noFinalProgressCall") ELSE {}>>
   ELSE <<[c EXCEPT !.retR = IF e.ok THEN "ok" ELSE "err"],
          IF c.realR THEN Cl(e.ok /\ ~c.rFinSent, "C07.successWithoutFin")
+                         \cup Cl(~e.ok /\ c.faults = 0 /\ ~c.rMustFail /\ ~c.rEof /\ ~c.tornS /\ c.retS = "none"
+                                 /\ c.vsOK, "C07.failedWithoutCause")
                          \cup Cl(e.ok /\ ~c.rEof, "C07.successBeforeEndOfStream")
                          \cup Cl(e.ok /\ c.rMustFail, "C07.successDespiteInvalidStream") ELSE {}>>
 
 \* ---- end of case: outcome ------------------------------------------------------
 ViewOf(c, vc) == [i \in DOMAIN c.stats |-> [c.stats[i] EXCEPT !.c = vc[i]]]
 ReqPaths(c) == {c.stats[id + 1].p : id \in {x \in c.rReq : x < Len(c.stats)}}
-
-\* requests delivered to the sender that must make the call fail
-BadReqs(c) == \E i \in DOMAIN c.sReqLog :
-                \/ c.sReqLog[i] >= Len(c.stats)
-                \/ c.stats[c.sReqLog[i] + 1].t # "file"
-                \/ \E j \in 1..(i - 1) : c.sReqLog[j] = c.sReqLog[i]
 
 EndClauses(c, e) ==
   LET view == ViewOf(c, e.vc)
@@ -176,6 +182,12 @@ EndClauses(c, e) ==
              \cup Cl(BadReqs(c), "C06.invalidRequestAccepted")
              \cup Cl(~c.ended, "C06.noEndMarker")
         ELSE {})
+  \* a fault-free session with only valid requests and a FIN must succeed
+  \cup Cl(c.realS /\ ~c.realR /\ c.faults = 0 /\ ~BadReqs(c) /\ c.sFinSeen /\ c.retS = "err", "C06.validSessionFailed")
+  \* one STAT per entry of the (unfiltered, on-disk) view, in walk order, same type
+  \cup Cl(c.realS /\ c.srcExact /\ c.ended
+         /\ ~(Len(c.stats) = Len(c.src) /\ \A i \in DOMAIN c.src : c.stats[i].p = c.src[i].p /\ c.stats[i].t = c.src[i].t),
+         "C06.statPerViewEntry")
   \cup (IF c.realS /\ c.realR /\ c.faults = 0 /\ ~bothOK THEN {"C11.faultFreeTransferFailed"} ELSE {})
   \cup Cl(c.retS = "none" \/ c.retR = "none", "C04.callDidNotReturn")
 
@@ -207,10 +219,13 @@ Consume(c, e) ==
                                                               bytes |-> e.bytes, dgOK |-> e.dgOK])], {}>>
          [] e.ev = "Fault" -> <<[c EXCEPT !.faults = @ + 1], {}>>
          [] e.ev = "Break" -> <<[c EXCEPT !.faults = @ + 1], {}>>
-         [] e.ev = "TearDown" -> <<c, {}>>
+         [] e.ev = "TearDown" -> <<IF e.ep = "S" THEN [c EXCEPT !.tornS = TRUE] ELSE [c EXCEPT !.tornR = TRUE], {}>>
          [] e.ev = "Overlap" -> <<c, {"C08.concurrentStreamCalls"}>>
          [] e.ev = "Race" -> <<c, {"C08.dataRace"}>>
-         [] e.ev = "Hang" -> <<c, {"C04.hang"}>>
+         [] e.ev = "Hang" -> <<c, {"C04.hang"}
+                                  \cup Cl(c.faults = 0 /\ c.realS /\ e.side = "S", "C06.senderStuckWithConformingPeer")
+                                  \cup Cl(c.faults = 0 /\ c.realR /\ e.side = "R", "C07.receiverStuckWithConformingPeer")>>
+         [] e.ev = "Stall" -> <<c, {"HARNESS.stall"}>>
          [] e.ev = "Leak" -> <<c, {"C04.goroutineLeak"}>>
          [] e.ev = "End" -> <<NoCase, EndClauses(c, e)>>
          [] OTHER -> <<c, {"HARNESS.unknownEvent"}>>
